@@ -685,6 +685,85 @@ Definition rt_remove_name (R : router) (nme : str) : router * option rerr :=
     end
   end.
 
+(* RadiRouter.remove(route_obj) with the Route found by router[{rule}]: as by name, no name is popped first *)
+Definition rt_remove_obj (R : router) (pattern0 : str) (flts : list (option fid)) : router * option rerr :=
+  match rt_match R pattern0 flts with
+  | None => (R, None)
+  | Some d =>
+    match pattern_of_rid R d with
+    | None => (R, Some RKeyError)
+    | Some pattern =>
+      match rd_remove (tree R) pattern false true with
+      | None => (R, Some RWildHooks)
+      | Some t' =>
+        match al_get (routes R) pattern with
+        | None => (mkRouter t' (heap R) (routes R) (named R) (hooks_idx R), Some RKeyError)
+        | Some _ =>
+          (mkRouter t' (heap R) (al_del (routes R) pattern)
+                    (drop_names R (fun p => str_eqb p pattern) (named R)) (hooks_idx R), None)
+        end
+      end
+    end
+  end.
+
+(* route.add_method / route.set_method called directly on the Route found by
+   router[{rule}] (radirouter.py:117, 136): no upper-casing, no parameter names *)
+Definition rt_route_method (R : router) (pattern : str) (flts : list (option fid)) (ms : list str)
+           (h : hid) (overwrite : bool) : router * option aerr :=
+  match rt_match R pattern flts with
+  | None => (R, None)
+  | Some d =>
+    match nth_error (heap R) d with
+    | None => (R, Some ACorrupt)
+    | Some rt =>
+      match (if overwrite then Some (mt_set_all (r_methods rt) ms (h, [])) else mt_add (r_methods rt) ms (h, [])) with
+      | None => (R, Some AMethod)
+      | Some t' => (mkRouter (tree R) (heap_set (heap R) d (set_methods rt t')) (routes R) (named R) (hooks_idx R), None)
+      end
+    end
+  end.
+
+(* RadiDict._routes_iter (radidict.py:490): every node below the start node that
+   holds data (or, with yield_hooks, a hook), with the key string from the root *)
+Fixpoint iter_at (yh : bool) (n : node) (acc : str) : list (str * (option rid * option hookpair)) :=
+  match n with
+  | Node _ d _ _ h ks =>
+    flat_map (fun k => iter_at yh k (acc ++ nkey k)) ks
+    ++ (if (match d with Some _ => true | None => false end)
+           || (yh && match h with Some _ => true | None => false end)
+        then [(acc, (d, h))] else [])
+  end.
+
+Section FindSub.
+Variable rec : node -> str -> str -> option (node * str).
+Fixpoint fs_go (c0 : N) (route acc : str) (ks : list node) : option (node * str) :=
+  match ks with
+  | [] => None
+  | k :: ks' =>
+    if head_is k c0 then
+      if prefixb (nkey k) route then rec k (skipn (length (nkey k)) route) (acc ++ nkey k)
+      else if prefixb route (nkey k) then Some (k, acc ++ nkey k)      (* PARTIAL, key.startswith(rest) *)
+      else None
+    else fs_go c0 route acc ks'
+  end.
+End FindSub.
+
+(* the start node of _routes_iter(startswith=...) *)
+Fixpoint find_sub_node (n : node) (route acc : str) {struct n} : option (node * str) :=
+  match n with
+  | Node _ _ _ _ _ kids =>
+    match route with
+    | [] => Some (n, acc)
+    | c0 :: _ => fs_go find_sub_node c0 route acc kids
+    end
+  end.
+
+Definition routes_iter (root : node) (startswith : str) (yh : bool) : list (str * (option rid * option hookpair)) :=
+  match find_sub_node root startswith [] with
+  | Some (n, acc) => iter_at yh n acc
+  | None => []
+  end.
+
 (* RadiRouter.hook_installer (radirouter.py:326); htype 0 = SIMPLE, 1 = PARTIAL *)
 Definition install (hp : hookpair) (h : hid) (partial : bool) : hookpair :=
   if partial then (fst hp, Some h) else (Some h, snd hp).
@@ -829,6 +908,12 @@ Inductive cmd :=
 | CAddHook (pattern : str) (nm : list str) (flts : list (option fid)) (h : hid) (partial : bool)
 | CRemoveHook (pattern : str)
 | CRemoveMethod (pattern : str) (flts : list (option fid)) (ms : list str)
+| CRemoveObj (pattern : str) (flts : list (option fid))
+| CRouteMethod (pattern : str) (flts : list (option fid)) (ms : list str) (h : hid) (overwrite : bool)
+| PResolveRoute (path : str) (tab : list (list (option (value * nat))))
+| PCallRoute (pattern : str) (flts : list (option fid)) (verb : str)
+| PGetHook (pattern : str)
+| PIter (startswith : str) (yh : bool)
 | PDispatch (path : str) (verb : str) (tab : list (list (option (value * nat))))
 | PByName (name : str)
 | PByRule (pattern : str) (flts : list (option fid))
@@ -915,6 +1000,42 @@ Definition run_cmd (R : router) (c : cmd) : router * list Z :=
   | CAddHook p nm fl h pt => let (R', e) := rt_add_hook R p nm fl h pt in (R', enc_aerr e)
   | CRemoveHook p => let (R', e) := rt_remove_hook R p in (R', enc_rerr e)
   | CRemoveMethod p fl ms => (rt_remove_method R p fl ms, [0%Z])
+  | CRemoveObj p fl => let (R', e) := rt_remove_obj R p fl in (R', enc_rerr e)
+  | CRouteMethod p fl ms h ow => let (R', e) := rt_route_method R p fl ms h ow in (R', enc_aerr e)
+  | PResolveRoute path tab =>
+    (R, match get (filt_of_table tab (length (strip_sep path))) true (tree R) (strip_sep path) with
+        | GFound d _ _ _ => 1%Z :: enc_route_obs R d
+        | GFail _ _ _ => [0%Z]
+        end)
+  | PCallRoute p fl verb =>
+    (R, match rt_match R p fl with
+        | None => [2%Z]
+        | Some d => match nth_error (heap R) d with
+                    | None => [9%Z]
+                    | Some rt => match mt_get (r_methods rt) verb with
+                                 | Some (h, _) => [1%Z; Z.of_nat h]
+                                 | None => [0%Z]
+                                 end
+                    end
+        end)
+  | PGetHook p =>
+    (R, match al_get (hooks_idx R) p with
+        | Some hp => 1%Z :: enc_ohid (fst hp) ++ enc_ohid (snd hp)
+        | None => [0%Z]
+        end)
+  | PIter sw yh =>
+    (R, enc_list (fun x => enc_str (fst x)
+                          ++ match fst (snd x) with
+                             | Some d => match nth_error (heap R) d with
+                                         | Some rt => [1%Z; Z.of_nat (r_rule rt)]
+                                         | None => [1%Z; (-1)%Z]
+                                         end
+                             | None => [0%Z]
+                             end
+                          ++ match snd (snd x) with
+                             | Some hp => 1%Z :: enc_ohid (fst hp) ++ enc_ohid (snd hp)
+                             | None => [0%Z]
+                             end) (routes_iter (tree R) sw yh))
   | PDispatch path verb tab =>
     (R, enc_rres R (req_path path) (to_route (filt_of_table tab (length (strip_sep path))) R path verb))
   | PByName n =>
@@ -1001,6 +1122,19 @@ Definition dec_cmd (l : list Z) : option (cmd * list Z) :=
     | 5 =>
       bind (dec_str r) (fun p r => bind (dec_list dec_ofid r) (fun fl r =>
       bind (dec_list dec_str r) (fun ms r => Some (CRemoveMethod p fl ms, r))))
+    | 6 => bind (dec_str r) (fun p r => bind (dec_list dec_ofid r) (fun fl r => Some (CRemoveObj p fl, r)))
+    | 7 =>
+      bind (dec_str r) (fun p r => bind (dec_list dec_ofid r) (fun fl r =>
+      bind (dec_list dec_str r) (fun ms r => bind (dec_nat r) (fun h r =>
+      bind (dec_bool r) (fun ow r => Some (CRouteMethod p fl ms h ow, r))))))
+    | 14 =>
+      bind (dec_str r) (fun path r =>
+      bind (dec_list (dec_list dec_cell) r) (fun tab r => Some (PResolveRoute path tab, r)))
+    | 15 =>
+      bind (dec_str r) (fun p r => bind (dec_list dec_ofid r) (fun fl r =>
+      bind (dec_str r) (fun verb r => Some (PCallRoute p fl verb, r))))
+    | 16 => bind (dec_str r) (fun p r => Some (PGetHook p, r))
+    | 17 => bind (dec_str r) (fun sw r => bind (dec_bool r) (fun yh r => Some (PIter sw yh, r)))
     | 10 =>
       bind (dec_str r) (fun path r => bind (dec_str r) (fun verb r =>
       bind (dec_list (dec_list dec_cell) r) (fun tab r => Some (PDispatch path verb tab, r))))
